@@ -1,5 +1,6 @@
 //! C07 — the multi-source generator yields every item exactly once and terminates.
 use crate::core::*;
+use crate::gen;
 use anyhow::anyhow;
 use rand::Rng as _;
 use serde::{Deserialize, Serialize};
@@ -121,6 +122,16 @@ fn gen_lens(rng: &mut Rng, tier: Tier) -> Vec<usize> {
         0..=11 => 1,
         _ => rng.random_range(2..=6),
     };
+    if gen::scale() > 1 {
+        // `large` lane: many short sources (beyond 2^8) or few long ones (beyond 2^16)
+        return if rng.random_bool(0.5) {
+            let n = rng.random_range(7..=gen::sc(6).max(300));
+            (0..n).map(|_| rng.random_range(0..=3)).collect()
+        } else {
+            let n = rng.random_range(1..=4);
+            (0..n).map(|_| rng.random_range(0..=gen::sc(300))).collect()
+        };
+    }
     if tier == Tier::Thorough && rng.random_bool(0.05) {
         // larger instances: up to 12 sources with 0-60 items
         let n = rng.random_range(1..=12);
@@ -173,9 +184,15 @@ impl Prop for C07 {
     const ID: &'static str = "C07";
 
     fn lanes(tier: Tier) -> Vec<Lane> {
-        vec![Lane::new("main", tier.pick(1_500_000, 8_000_000))
-            .cap(tier.pick(150, 1200))
-            .floor(tier.pick(100_000, 600_000))]
+        vec![
+            Lane::new("main", tier.pick(1_500_000, 8_000_000))
+                .cap(tier.pick(150, 1200))
+                .floor(tier.pick(100_000, 600_000)),
+            // 7 - 1500 short sources, or 1 - 4 sources of up to 75 000 items
+            Lane::new("large", tier.pick(3_000, 60_000))
+                .cap(tier.pick(150, 1200))
+                .floor(tier.pick(200, 4_000)),
+        ]
     }
 
     fn rule() -> &'static str {
